@@ -14,6 +14,8 @@ import Flax.Proofs.RngNnxHist
 import Flax.Proofs.RngNoReuseJit
 import Flax.Proofs.RngAlias
 import Flax.Proofs.RngReseed
+import Flax.Proofs.RngHeapSim
+import Flax.Proofs.RngRankJit
 
 namespace Flax.C09
 open Flax.Rng
@@ -415,6 +417,38 @@ theorem split_restore_resumes_rngs (seeds : List (String × SymKey)) (hnd : (see
         NRep seeds r2 (fun n => c n + if selectedBy only n then 1 else 0) :=
   split_restore_rngs seeds hnd c only shape bk
 
+/-- **`only=` filter: unselected streams are completely untouched by `split_rngs` and by `restore_rngs`.**  For every set of streams
+with distinct names, every counter state, filter and shape: the split leaves each unselected stream exactly as it was; and for
+*any* state `streams'` the streams are in when the split is restored (unselected streams may have been drawn from inside the
+window), the restore leaves each unselected stream exactly as it is then — so its draws inside the window are never rewound and
+replayed — while each selected stream gets its original key back with count `c + 1`. -/
+theorem split_restore_unselected_untouched (seeds : List (String × SymKey)) (hnd : (seeds.map (·.1)).Nodup) (c : String → Nat)
+    (only : Option (List String)) (shape : List Nat) (bk : List (List Backup)) :
+    ∃ r1, Rngs.split { streams := streamsOf seeds c, backups := bk } only shape false = .ok (bk.length, r1) ∧
+      (∀ n, selectedBy only n = false → find? n r1.streams = find? n (streamsOf seeds c)) ∧
+      ∀ (streams' : List (String × Stream)) (bk' : List (List Backup)),
+        ∃ r2, Rngs.restore { streams := streams', backups := r1.backups ++ bk' } bk.length = .ok r2 ∧
+          (∀ n, selectedBy only n = false → find? n r2.streams = find? n streams') ∧
+          (∀ n k s, selectedBy only n = true → find? n seeds = some k → find? n streams' = some s →
+            find? n r2.streams = some { s with key := .scalar k, count := .scalar (c n + 1) }) :=
+  split_restore_only seeds hnd c only shape bk
+
+/-- **Counter-example for a `split_rngs` that also backs up the streams it does not split** (not the shipped code): `Rngs(0, params=1)`,
+split only `params`, draw from `default` inside the window, restore, draw from `default` again.  Shipped code: counts 0 then 1.
+Backup-everything variant: the restore rewinds `default` to count 0 and the same key is handed out twice. -/
+theorem split_backing_up_unselected_replays :
+    let r0 := Rngs.mk' [("default", SymKey.seed 0), ("params", SymKey.seed 1)]
+    let dflt (c : Nat) : Stream := { tag := "default", key := .scalar (.seed 0), count := .scalar c }
+    (nrun "default" r0 [.split (some ["params"]) [2] false, .call "default", .restore 0, .call "default"]).map
+        (fun o => match o with | .key k => some k | _ => none)
+      = [none, some (.foldIn (.seed 0) 0), none, some (.foldIn (.seed 0) 1)] ∧
+    (∃ bs st1, splitLoopBackupAll (some ["params"]) [2] false r0.streams = .ok (bs, st1) ∧
+      find? "default" st1 = some (dflt 0) ∧
+      -- the draw inside the window advanced `default` to count 1; restoring the variant's backups rewinds it to 0
+      find? "default" (restoreLoop (set "default" (dflt 1) st1) bs) = some (dflt 0)) ∧
+    (dflt 0).call.map (·.1) = .ok (.foldIn (.seed 0) 0) := by
+  refine ⟨rfl, ⟨_, _, rfl, rfl, rfl⟩, rfl⟩
+
 /-- **No replay along any history of a stream.**  Take any sequence of `stream()` calls, `split_rngs`, vmapped bodies in
 which every lane draws, and `restore_rngs` — any number of rounds, any shapes, starting at any count — that the code accepts
 (a split stream cannot be called or split outside `vmap`; `restore` needs an open split): all keys handed out, at top level
@@ -561,6 +595,47 @@ theorem no_reuse_within_run_jit (cfg : Cfg) (hsep : cfg.sep = true) (seeds : Lis
     subst h
     exact specProg_nodup cfg hsep seeds hatoms hseeds p hnames hsize ks' c' hs
 
+/-- **Position function, `nn.jit` included.**  For every module program (nested jit-ted methods allowed; a jit-ted body is assumed to
+make the same draws whenever it runs, i.e. its draw count does not depend on input shapes) under the hypotheses of
+`no_reuse_within_run_jit`: list *all* counter requests of the run in execution order, `reqsN` — each user draw (handed out) and, for
+each jit-ted call, one request per stream (`fork_rngs`, not handed out) — as (scope path, stream after fallback).  Then the keys
+handed out correspond one-to-one, in order, to the handed-out requests; the `i`-th key `x` satisfies `Tk seeds x (π, s, j)`:
+`x = fold_in_static(b, names since b was installed ++ [j])` where the base `b` descends from the seed of `s` through the enclosing
+jit-ted calls (`Base`), the scope path is `π`, and **`j` is one plus the number of earlier requests at the same (π, s)** — so the
+key depends on the logical position only, and `Tk.functional` says the key in turn determines (π, s, j). -/
+theorem linen_key_count_is_rank_with_jit (cfg : Cfg) (hsep : cfg.sep = true) (seeds : List (String × SymKey))
+    (hatoms : ∀ s k, find? s seeds = some k → ∃ i, k = .seed i) (hstreams : (seeds.map (·.1)).Nodup)
+    (p : Prog) (hnames : ∀ n ∈ p.names, NulFree (strBytes n)) (hsize : p.size < 256)
+    (ks : List SymKey) (h : runTop cfg seeds p = .ok ks) :
+    ∃ kts : List (SymKey × Ticket), kts.map (·.1) = ks ∧ (∀ q ∈ kts, Tk seeds q.1 q.2) ∧
+      kts.map (·.2) = assignH (fun _ _ => 0) (reqsN cfg (seeds.map (·.1)) p []) ∧
+      ∀ t ∈ kts.map (·.2), ∃ pre post, reqsN cfg (seeds.map (·.1)) p [] = pre ++ (t.1, t.2.1, true) :: post ∧
+        t.2.2 = cntR t.1 t.2.1 pre + 1 := by
+  rw [runTop_specProg cfg seeds hstreams p] at h
+  cases hs : specProg cfg p seeds [] [] (fun _ _ => 0) with
+  | error e => rw [hs] at h; cases h
+  | ok r =>
+    obtain ⟨ks', c'⟩ := r
+    rw [hs] at h
+    simp only [Except.map, Except.ok.injEq] at h
+    subst h
+    have hb : ∀ π' s, c' π' s < 256 := by
+      intro π' s
+      have := (specProg_bounds cfg p seeds [] [] _ ks' c' hs π' s).2
+      omega
+    have hgood : GoodB seeds seeds [] := by
+      intro s b hf
+      obtain ⟨i, rfl⟩ := hatoms s b hf
+      exact ⟨_, hf, Base.root i⟩
+    obtain ⟨kts, h1, h2, _, _, h5⟩ := specProg_tickets cfg hsep seeds p seeds [] [] [] _ ks' c' rfl hs hgood
+      (by intro m hm; simp at hm) hnames hb
+    rw [specTk_assignH cfg _ hstreams] at h5
+    refine ⟨kts, h1, h2, h5, ?_⟩
+    intro t ht
+    rw [h5] at ht
+    obtain ⟨pre, post, hl, hj⟩ := (assignH_closed _ _ t).mp ht
+    exact ⟨pre, post, hl, by simpa using hj⟩
+
 /-- **The replay on a jit cache hit preserves aliasing.**  Counter dicts are heap objects; a child scope bound before the
 call (`h.walk a p = some b`: the dict reached from the scope's dict `a` through the nested keys `p` *is* the object `b` the
 child holds) still is the object in its parent's entry after `_restore_rng_counters` has written `old + delta` with the
@@ -590,6 +665,42 @@ theorem rerun_equals_first_run (h : CHeap) (hc : Canon h) (a : CRef) (ha : (find
     rw [r2, r1, r3, Nat.add_mul]; omega
   · intro p b hw
     exact walk_mono _ _ (fun k v hk => l2 k v (l1 k v hk)) p a b hw
+
+/-- **The counter heap simulates the executable scope machine** (abstraction: both states are read as the table of counts
+`(scope path, stream) ↦ n`; `Rep` for the `Store` the driver runs, `HeapRep` for the heap of dict objects).  Step commutation for
+`Scope.push`: neither side changes the table, and the heap's new dict object sits at the address the `Store` scope refers to. -/
+theorem heap_push_commutes (B : List (String × SymKey)) (rel π : Path) (n : String) (st : Store) (h : CHeap) (c : Counts)
+    (hrep : Rep B st c) (hc : Canon h) (ha : (find? ((0 : Nat), π) h.cells).isSome) (hh : HeapRep h c) :
+    Rep B (push (scopeG B rel π) n st).2 c ∧ (push (scopeG B rel π) n st).1 = scopeG B (rel ++ [n]) (π ++ [n]) ∧
+    HeapRep (h.pushC ((0 : Nat), π) n).1 c ∧ (h.pushC ((0 : Nat), π) n).2 = ((0 : Nat), π ++ [n]) ∧
+    Canon (h.pushC ((0 : Nat), π) n).1 :=
+  sim_push B rel π n st h c hrep hc ha hh
+
+/-- step commutation for `Scope.make_rng`: both sides bump the same entry of the table (and the `Store` side returns the key) -/
+theorem heap_draw_commutes (cfg : Cfg) (B : List (String × SymKey)) (rel π : Path) (s : String) (st : Store) (h : CHeap)
+    (c : Counts) (hrep : Rep B st c) (hhas : (find? ((0 : Nat), π) st.dicts).isSome)
+    (hc : Canon h) (ha : (find? ((0 : Nat), π) h.cells).isSome) (hh : HeapRep h c)
+    (s' : String) (k : SymKey) (he : effOf cfg B s = some (s', k)) :
+    ∃ st', makeRng cfg (scopeG B rel π) s st = .ok (keyAt cfg.sep k rel (c π s' + 1), st') ∧ Rep B st' (bump c π s') ∧
+      HeapRep (h.applyAt ((0 : Nat), π) [] s' (· + 1)) (bump c π s') :=
+  sim_draw cfg B rel π s st h c hrep hhas hc ha hh s' k he
+
+/-- **A jit-ted call on the executable model vs. a cache hit on the heap.**  Run any `jit`-free body at scope `π` on the `Store` machine
+(the traced call).  On a heap representing the same table, running that body, *or replaying its cached delta in place* (the cache-hit
+branch of `_restore_rng_counters`), ends in a heap representing the table the `Store` run ends in; and every scope bound before is
+still aliased.  This is what makes `replay_preserves_aliasing` and `rerun_equals_first_run` statements about the counts — hence the
+keys — of the model the driver executes. -/
+theorem jit_call_simulated_by_heap_replay (cfg : Cfg) (B : List (String × SymKey)) (hnd : (B.map (·.1)).Nodup)
+    (rel π : Path) (st : Store) (c : Counts) (hrep : Rep B st c) (hhas : (find? ((0 : Nat), π) st.dicts).isSome)
+    (h : CHeap) (hc : Canon h) (ha : (find? ((0 : Nat), π) h.cells).isSome) (hh : HeapRep h c)
+    (p : Prog) (hjf : p.jitFree) (ks : List SymKey) (st' : Store)
+    (hrun : runProg cfg p (scopeG B rel π) st = .ok (ks, st')) :
+    ∃ c', Rep B st' c' ∧
+      HeapRep (h.runBody ((0 : Nat), π) (bodyOf cfg B p)) c' ∧
+      HeapRep (h.hitCall ((0 : Nat), π) (deltaOf (bodyOf cfg B p))) c' ∧
+      (∀ q b, h.walk ((0 : Nat), π) q = some b →
+        (h.hitCall ((0 : Nat), π) (deltaOf (bodyOf cfg B p))).walk ((0 : Nat), π) q = some b) :=
+  store_run_simulated_by_heap_replay cfg B hnd rel π st c hrep hhas h hc ha hh p hjf ks st' hrun
 
 /-- **Counter-example for the `dict.update` variant** (not the shipped code): child `k` is bound, the traced call draws once in
 it (count 1); on the next call a replay by `rng_counters.update(updates)` puts a *new* dict object into the parent's entry:
@@ -702,6 +813,19 @@ example : ∀ p ∈ ([(0, { tag := "dropout", key := .scalar (.seed 1), count :=
   obtain ⟨_, k, shape, hk⟩ := hns
   simp only [List.mem_cons, List.mem_nil_iff, or_false] at hp
   rcases hp with rfl | rfl | rfl <;> simp at hk
+/-- `split_restore_unselected_untouched`: the filter really leaves a stream out -/
+example : selectedBy (some ["params"]) "default" = false ∧ selectedBy (some ["params"]) "params" = true ∧
+    selectedBy none "default" = true := by decide
+/-- `linen_key_count_is_rank_with_jit`: the request list of a program with a jit-ted call (two streams ⇒ two fork requests) -/
+example : reqsN cfg1 ["params", "dropout"] (.sub "A" (.jit (.draw "x" .done) (.draw "dropout" .done)) .done) [] =
+    [(["A"], "params", false), (["A"], "dropout", false), (["A"], "params", true), (["A"], "dropout", true)] := by decide
+/-- `jit_call_simulated_by_heap_replay`: the initial states (`bind` root / the heap with one root dict) satisfy the hypotheses -/
+example : Rep seeds0 (bindRoot seeds0).2 (fun _ _ => 0) ∧ HeapRep CHeap.init (fun _ _ => 0) ∧ Canon CHeap.init ∧
+    (find? (((0 : Nat), []) : CRef) CHeap.init.cells).isSome ∧ (find? (((0 : Nat), []) : CRef) (bindRoot seeds0).2.dicts).isSome := by
+  refine ⟨rep_init seeds0, ?_, canon_init, by decide, by decide⟩
+  intro π s
+  simp only [CHeap.read, CHeap.init, find?_cons, find?_nil]
+  split <;> simp_all
 /-- `nnx_no_replay_along_history`: an accepted history with two split rounds (1-D and 2-D), 13 keys -/
 example : ∃ outs, srun (stateOf "params" (.seed 0) (.top 0))
     [.call, .split [2], .lanes 2, .lanes 1, .restore, .call, .split [2, 2], .lanes 1, .restore, .call] = .ok outs ∧
